@@ -880,12 +880,15 @@ pub struct RestoredInfo {
 
 impl System {
     pub fn new(sc: Rc<Scenario>) -> System {
-        Self::build(sc, None).0
+        Self::build(sc, None).expect("system build").0
     }
 
     /// Builds the server the way `initialize_server` / `start_server` do (without sockets).
     /// With `restore_from`, runs the real restore sequence first.
-    pub fn build(sc: Rc<Scenario>, restore_from: Option<&std::path::Path>) -> (System, Option<RestoredInfo>) {
+    pub fn build(
+        sc: Rc<Scenario>,
+        restore_from: Option<&std::path::Path>,
+    ) -> Result<(System, Option<RestoredInfo>), String> {
         let rt = tokio::runtime::Builder::new_current_thread()
             .enable_time()
             .start_paused(true)
@@ -899,7 +902,7 @@ impl System {
         let mut server_uid = "hqmcuid".to_string();
         if let Some(path) = restore_from {
             let mut r = hyperqueue::server::verif::Restorer::default();
-            r.load_event_file(path).expect("journal load failed");
+            r.load_event_file(path).map_err(|e| format!("journal load failed: {e:?}"))?;
             let uid = r.take_server_uid();
             if !uid.is_empty() {
                 server_uid = uid;
@@ -1003,8 +1006,10 @@ impl System {
             let (submits, queues) = {
                 let mut state = sys.state_ref.get_mut();
                 r.restore_state(&mut state);
-                r.restore_jobs_and_queues(&mut state, &sys.senders.server_control)
-                    .expect("restore_jobs_and_queues failed")
+                match r.restore_jobs_and_queues(&mut state, &sys.senders.server_control) {
+                    Ok(x) => x,
+                    Err(e) => return Err(format!("restore_jobs_and_queues failed: {e:?}")),
+                }
             };
             restored = Some(RestoredInfo {
                 job_id_counter,
@@ -1034,7 +1039,35 @@ impl System {
         }
         sys.settle();
         sys.collect();
-        (sys, restored)
+        Ok((sys, restored))
+    }
+
+    /// Ask the real server (through a fresh client connection and the real
+    /// `handle_prune_journal`) which jobs / workers it considers live right now.
+    pub fn inject_prune(&mut self) -> Option<(Vec<u32>, Vec<u32>)> {
+        self.add_client();
+        let c = self.clients.len() - 1;
+        self.clients[c].tx.send(FromClientMessage::PruneJournal).ok()?;
+        self.settle();
+        self.collect();
+        let pos = self
+            .pending_ops
+            .iter()
+            .rposition(|op| matches!(op, PendingJournalOp::Prune { .. }))?;
+        match self.pending_ops.remove(pos)? {
+            PendingJournalOp::Prune {
+                callback,
+                live_jobs,
+                live_workers,
+                ..
+            } => {
+                let _ = callback.send(());
+                self.settle();
+                self.collect();
+                Some((live_jobs, live_workers))
+            }
+            _ => None,
+        }
     }
 
     /// `start_server`'s spawned restore task: feed the restored batches to the core.
